@@ -1377,3 +1377,99 @@ BASE.update({'(*math/big.Int).Sign': big_Sign})
 
 
 INTRINSICS.update({'verifFieldOrder': lambda ex, st, args, ctx: Big(bvval(BN254_R, BIG))})
+
+
+# ------------------------------------------------------------------------------------------ circuit construction paths (C12)
+def _record_circuit(ex, st, c):
+    tid = deref_type(ex, c.t)
+    val = ex.load(st, c.v)
+    names = struct_fields(ex, tid)
+    st.events.append(('Compile', ex.tname(tid), {n: snapshot(ex, st, v) for n, v in zip(names, val.f)}))
+
+
+def frontend_Compile(ex, st, args, ctx):
+    used('frontend.Compile / extractor.ExtractCircuits: record the circuit struct handed over (deep snapshot); return an opaque constraint system or an error')
+    _record_circuit(ex, st, args[2])
+    c = z3.Bool(ex.newsym('compile_ok'))
+    return Forks([(c, (Opaque('cs', sys='compiled', oid=new_oid()), NIL), None), (z3.Not(c), (NIL, Iface(-1, Opaque('error', msg=S('compile error'), origin=ctx['pos']))), None)])
+
+
+def extractor_ExtractCircuits(ex, st, args, ctx):
+    for c in ex.cells(st, args[2])[:args[2].len]:
+        _record_circuit(ex, st, c)
+    c = z3.Bool(ex.newsym('extract_ok'))
+    return Forks([(c, (Str(z3.String(ex.newsym('lean'))), NIL), None), (z3.Not(c), (S(''), Iface(-1, Opaque('error', msg=S('extract error'), origin=ctx['pos']))), None)])
+
+
+def _compiled(st):
+    return [e for e in st.events if e[0] == 'Compile']
+
+
+def i_compiled_count(ex, st, args, ctx):
+    return bvval(len(_compiled(st)), 64)
+
+
+def i_compiled_kind(ex, st, args, ctx):
+    k = conc(args[0])
+    cs = _compiled(st)
+    if k >= len(cs):
+        return S('')
+    return S(cs[k][1].replace('worldcoin/gnark-mbu/', ''))
+
+
+def i_compiled_int(ex, st, args, ctx):
+    cs = _compiled(st)
+    k = conc(args[0])
+    if k >= len(cs):
+        return bvval(-1, 64)
+    return cs[k][2][name_of(args[1])]
+
+
+def i_compiled_len(ex, st, args, ctx):
+    cs = _compiled(st)
+    k = conc(args[0])
+    if k >= len(cs):
+        return bvval(-1, 64)
+    v = cs[k][2].get(name_of(args[1]))
+    i = sconc(args[2], 64)
+    if v is None or v is NIL:
+        return bvval(0, 64)
+    if i >= 0:
+        if i >= len(v[2]):
+            return bvval(-1, 64)
+        v = v[2][i]
+        if v is NIL:
+            return bvval(0, 64)
+    ln = v[1]
+    return bvval(ln, 64) if isinstance(ln, int) else ln
+
+
+def abstractor_Call(nres):
+    def f(ex, st, args, ctx):
+        used('abstractor.Call*: gadget calls are opaque while executing Define (only the depth guard and control flow matter)')
+        g = args[1]
+        gv = g.v if isinstance(g, Iface) else g
+        st.events.append(('gadget', ex.tname(g.t) if isinstance(g, Iface) else '?'))
+        if nres == 0:
+            return Iface(-2, Opaque('var'))
+        n = None
+        if isinstance(gv, Struct) and isinstance(g, Iface):
+            names = struct_fields(ex, g.t)
+            for cand in ('Size', 'OutputSize'):
+                if cand in names:
+                    n = conc(gv.f[names.index(cand)])
+        if n is None:
+            n = 0
+        o = st.alloc(Array([Iface(-2, Opaque('var'))] * n))
+        return Slice(o, 0, n, n)
+    return f
+
+
+INTRINSICS.update({'verifCompiledCount': i_compiled_count, 'verifCompiledKind': i_compiled_kind, 'verifCompiledInt': i_compiled_int, 'verifCompiledLen': i_compiled_len,
+                   'verifStubAPI': lambda ex, st, a, c: Opaque('api')})
+BASE.update({'github.com/consensys/gnark/frontend.Compile': frontend_Compile, 'github.com/reilabs/gnark-lean-extractor/v2/extractor.ExtractCircuits': extractor_ExtractCircuits,
+             'worldcoin/gnark-mbu/prover.LoadProvingKey': lambda ex, st, a, c: (Opaque('pk', sys='file', oid=new_oid()), NIL),
+             'worldcoin/gnark-mbu/prover.LoadVerifyingKey': lambda ex, st, a, c: (Opaque('vk', sys='file', oid=new_oid()), NIL),
+             'github.com/reilabs/gnark-lean-extractor/v2/abstractor.Call': abstractor_Call(0), 'github.com/reilabs/gnark-lean-extractor/v2/abstractor.Call1': abstractor_Call(1),
+             'github.com/reilabs/gnark-lean-extractor/v2/abstractor.CallVoid': abstractor_Call(0),
+             'opaque:api.AssertIsEqual': lambda ex, st, a, c: None})
